@@ -188,6 +188,17 @@ func c02Gen(c *engine.C) engine.Case {
 			m.Body = append(m.Body, jg.St(jg.T("return null;")))
 		}
 		svc.Members = append(svc.Members, jg.Member{Method: m})
+		// what follows the function: calls written there belong to no named function
+		switch engine.PickTag(c, fmt.Sprintf("after-m%d", mi), "nothing", "field-initialised-by-call", "field-initialised-by-new", "instance-initialiser", "static-initialiser") {
+		case "field-initialised-by-call":
+			svc.Members = append(svc.Members, jg.Member{Field: &jg.Field{Mods: []string{"private"}, Type: "Tool", Name: fmt.Sprintf("later%d", mi), Init: []jg.Frag{jg.T("Tool.make()")}}})
+		case "field-initialised-by-new":
+			svc.Members = append(svc.Members, jg.Member{Field: &jg.Field{Mods: []string{"private"}, Type: "Helper", Name: fmt.Sprintf("fresh%d", mi), Init: []jg.Frag{jg.T("new Helper()")}}})
+		case "instance-initialiser":
+			svc.Members = append(svc.Members, jg.Member{Raw: "{\n    helper.help();\n}"})
+		case "static-initialiser":
+			svc.Members = append(svc.Members, jg.Member{Raw: "static {\n    Tool.make();\n}"})
+		}
 	}
 	// callee stubs so that the unit is self-consistent (no call sites inside)
 	for _, stub := range []string{"doIt", "other", "handle"} {
@@ -205,10 +216,22 @@ func c02Gen(c *engine.C) engine.Case {
 		{Path: "app/Helper.java", Content: jg.Print(helper, jg.DefaultLayout())},
 		{Path: "other/Tool.java", Content: jg.Print(tool, jg.DefaultLayout())},
 	}
-	return func() engine.Result { return c02Check(files, svc) }
+	return func() engine.Result { return c02Check(files, svc, c02Mode) }
 }
 
-func c02Check(files []FileSpec, svc *jg.Class) engine.Result {
+// c02Mode: "api" (in-process passes) or "cli" (`coca analysis -p .` in a child process, deps.json); set per section.
+var c02Mode = "api"
+
+func c02GenCLI(c *engine.C) engine.Case {
+	cs := c02Gen(c)
+	return func() engine.Result {
+		c02Mode = "cli"
+		defer func() { c02Mode = "api" }()
+		return cs()
+	}
+}
+
+func c02Check(files []FileSpec, svc *jg.Class, mode string) engine.Result {
 	res := engine.Result{InputKey: filesKey(files), Input: filesInput(files[:1]), Nontrivial: true}
 	if why := validateJava(files); why != "" {
 		res.Skipped = why
@@ -216,9 +239,23 @@ func c02Check(files []FileSpec, svc *jg.Class) engine.Result {
 	}
 	root, cleanup := materialise(files)
 	defer cleanup()
-	all := absFiles(root, files, nil)
-	idents := identPass(all)
-	full := fullPass(idents, []string{filepath.Join(root, "app/Svc.java")})
+	var full []core_domain.CodeDataStruct
+	if mode == "cli" {
+		r := runCLI(root, "analysis", "-p", ".")
+		if r.Exit != 0 {
+			res.Outcome = "CLI-FAILED"
+			res.Violations = append(res.Violations, engine.V("cli", "exit-status", "coca analysis exited %d: %s", r.Exit, trimTo(r.Stderr+r.Stdout, 600)))
+			return res
+		}
+		if err := readReport(root, "deps.json", &full); err != nil {
+			res.Violations = append(res.Violations, engine.V("cli", "no-report", "deps.json: %v", err))
+			return res
+		}
+	} else {
+		all := absFiles(root, files, nil)
+		idents := identPass(all)
+		full = fullPass(idents, []string{filepath.Join(root, "app/Svc.java")})
+	}
 	var node *core_domain.CodeDataStruct
 	for i := range full {
 		if full[i].NodeName == "Svc" {
@@ -317,6 +354,6 @@ func init() {
 			"position: start line and [start,stop) rune columns of the callee identifier; StopLine is not compared (multi-line calls)",
 			"method references, explicit constructor invocations and anonymous classes are outside the alphabet",
 		},
-		Sections: []engine.Section{{Name: "bodies", KQuick: 3, KThor: 4, Gen: c02Gen}},
+		Sections: []engine.Section{{Name: "bodies", KQuick: 3, KThor: 4, Gen: c02Gen}, {Name: "bodies-through-coca-analysis", KQuick: 1, KThor: 2, Gen: c02GenCLI}},
 	})
 }
